@@ -807,7 +807,17 @@ def flood_case(ctx, case):
     ctx.label('flood')
 
 
-COMPONENTS = {'flood': flood_case,
+def route_case(ctx, case):
+    """'A server disconnect packet closes the connection, runs the exit
+    callback exactly once and reports no error' - also for a play session
+    that an exception handler started after the previous one failed (the
+    documented auto-reconnect pattern): C14's routing scenarios with
+    reconnecting handlers, which count the exit callback per session."""
+    from props import c14_exceptions as P14
+    P14.route_case(ctx, case)
+
+
+COMPONENTS = {'route': route_case, 'flood': flood_case,
               'two_connections': two_connections_case,
               'repeat': repeat_case, 'write_error': write_error_case,
               'history': history_case, 'real_history': real_history_case,
@@ -1020,6 +1030,23 @@ def t_listener_disconnect(ctx, versions, n):
         lambda c, case: listener_disconnect_case(c, case), n)
 
 
+def t_reconnected_sessions(ctx):
+    from props import c14_exceptions as P14
+    for origin in ('listener', 'early_listener', 'login_listener',
+                   'decoder', 'reaction_login_disconnect'):
+        for do in ('reconnect', 'reconnect_direct'):
+            for v in (757, 340, 47):
+                for final in ('return', 'none'):
+                    route_case(ctx, P14.fix_case({
+                        'origin': origin, 'exc': 'B',
+                        'chain': [{'filter': [], 'early': False, 'do': do}],
+                        'final': final, 'final_new': 'C', 'compress': None,
+                        'version': v}))
+    ctx.exhaustive_done('sessions started by an exception handler and ended '
+                        'by a server disconnect: 5 fault origins x 2 '
+                        'reconnect forms x 3 protocols x 2 finals')
+
+
 def t_flood(ctx, version, compress, n, who):
     case = {'version': version, 'compress': compress, 'n': n, 'who': who}
     flood_case(ctx, case)
@@ -1052,6 +1079,7 @@ def tasks(tier):
         tl.append(('flood_%d' % k, t_flood,
                    dict(version=v, compress=comp,
                         n=70000 if q else 300000, who=who)))
+    tl.append(('reconnected_sessions', t_reconnected_sessions, {}))
     tl.append(('write_error', t_write_error, dict(versions=rel)))
     tl.append(('two_connections', t_two_connections,
                dict(n=15 if q else 400)))
